@@ -399,6 +399,8 @@ class MetadorGroup(MetadorNode):
             return has_first_seg
         else:
             if nxt := self.get(segs[0]):
+                if not isinstance(nxt, MetadorGroup):
+                    return False  # there is nothing inside of a dataset
                 return "/".join(segs[1:]) in nxt
             return False
 
